@@ -212,7 +212,9 @@ fn model_step(
     // unsync: the pending excess is evicted when the call starts. sync: a maintenance run nested
     // in the call may do the same before the call's own op is applied (only matters when an
     // excess is pending, i.e. after a batch-limited eviction).
-    if runs_maintenance && (kind == Kind::Unsync || evict_first) {
+    // (unsync contains_key purges expired entries but leaves the size eviction to the mutating calls)
+    let unsync_evicts = kind == Kind::Unsync && !matches!(op, Op::Contains { .. });
+    if runs_maintenance && (unsync_evicts || (kind == Kind::Sync && evict_first)) {
         growth_evict(&mut r, cap, &mut out.growth_victims);
     }
     match op {
@@ -1732,7 +1734,7 @@ impl Driver {
                             None => 0,
                         }
                     }
-                    Op::Iter | Op::IterAdvance { .. } | Op::InvalidateAll | Op::Advance { .. } | Op::Sync => self.allowed_excess,
+                    Op::Iter | Op::IterAdvance { .. } | Op::Contains { .. } | Op::InvalidateAll | Op::Advance { .. } | Op::Sync => self.allowed_excess,
                     _ => 0,
                 }
             };
